@@ -237,19 +237,7 @@ fn eval_filter_expr(
         return Err(error::Error::InvalidType);
     };
 
-    for predicate in filter.predicates() {
-        context.push_size(nodes.len());
-        let mut filtered = vec![];
-        for (position, n) in nodes.into_iter().enumerate() {
-            context.push_position(position + 1);
-            if eval_predicate(predicate, n.clone(), context)? {
-                filtered.push(n);
-            }
-            context.pop_position();
-        }
-        nodes = filtered;
-        context.pop_size();
-    }
+    nodes = eval_predicates(filter.predicates(), nodes, context)?;
 
     Ok(nodes.as_value())
 }
@@ -415,18 +403,38 @@ fn eval_axis_node_test(
         },
     }
 
+    eval_predicates(predicates, nodes, context)
+}
+
+/// Filters `nodes` by each predicate in turn. The context position/size pushed for a
+/// predicate are popped again on every path, also when its evaluation fails.
+fn eval_predicates(
+    predicates: &[expr::Expr],
+    mut nodes: Vec<dom::XmlNode>,
+    context: &mut model::Context,
+) -> error::Result<Vec<dom::XmlNode>> {
     for predicate in predicates {
         context.push_size(nodes.len());
         let mut filtered = vec![];
+        let mut failed = None;
         for (position, n) in nodes.into_iter().enumerate() {
             context.push_position(position + 1);
-            if eval_predicate(predicate, n.clone(), context)? {
-                filtered.push(n);
-            }
+            let selected = eval_predicate(predicate, n.clone(), context);
             context.pop_position();
+            match selected {
+                Ok(true) => filtered.push(n),
+                Ok(false) => {}
+                Err(e) => {
+                    failed = Some(e);
+                    break;
+                }
+            }
+        }
+        context.pop_size();
+        if let Some(e) = failed {
+            return Err(e);
         }
         nodes = filtered;
-        context.pop_size();
     }
 
     Ok(nodes)
